@@ -229,6 +229,48 @@ pub fn c03(out: &mut Out, thorough: bool) {
     // castlings, promotions, double steps and other captures, from every generated position (the constructed
     // motifs — sliders and kings on the lines an en-passant capture opens — are only given as positions otherwise)
     let extra = special_successors(&ps, &mut rng, if thorough { 200_000 } else { 12_000 });
+    // status one move later, judged on the successor the rules prescribe: a clock that was not reset (or not
+    // advanced) by the move shows as a wrong draw verdict even though every later report is self-consistent
+    {
+        let mut done = 0;
+        let cap = if thorough { 60_000 } else { 4_000 };
+        for t in ps.iter() {
+            let b = t.board;
+            let v = view(&b);
+            if done >= cap {
+                break;
+            }
+            let near_limit = (96..=100).contains(&v.half);
+            let p = pos64(&v);
+            for m in b.legals() {
+                let mover = b.raw().get(m.source).map(|x| x.1);
+                let special = m.piece.is_some() || (mover == Some(Piece::King) && v.rights != 0) || (mover == Some(Piece::Pawn) && near_limit);
+                if special || (near_limit && rng.chance(1, 3)) || rng.chance(1, 60) {
+                    done += 1;
+                    out.case("status-after-a-move", true, format!("pos status.after {p} {}", mv_str(m)), || match b.move_new(m) {
+                        Some(nb) => state_str(&nb),
+                        None => "refused".into(),
+                    });
+                }
+            }
+        }
+        // promotions and quiet moves with the clock just below the limit (forced grid)
+        for &(half, fen) in &[(99u32, "8/P6k/8/8/8/8/8/K7"), (98, "8/P6k/8/8/8/8/8/K7"), (99, "k7/8/8/8/8/8/p6K/8"), (99, "4k3/8/8/8/8/8/8/R3K2R"), (99, "r3k2r/8/8/8/8/8/8/4K3")] {
+            for white in [true, false] {
+                let rights = if fen.contains("R3K2R") { 3 } else if fen.contains("r3k2r") { 12 } else { 0 };
+                let txt = format!("{fen} {} {} - {half} 60", if white { "w" } else { "b" }, match rights { 3 => "KQ", 12 => "kq", _ => "-" });
+                if let Some(b) = crate::common::guard(|| chess_movegen::fen::parse_fen(txt.as_bytes()).ok()).flatten() {
+                    let p = pos64(&view(&b));
+                    for m in b.legals() {
+                        out.case("status-after-a-move-at-the-limit", true, format!("pos status.after {p} {}", mv_str(m)), || match b.move_new(m) {
+                            Some(nb) => state_str(&nb),
+                            None => "refused".into(),
+                        });
+                    }
+                }
+            }
+        }
+    }
     ps.extend(extra);
     for t in ps.iter() {
         let b = t.board;
@@ -313,6 +355,45 @@ pub fn c04(out: &mut Out, thorough: bool) {
         out.case("hash-incremental-vs-rebuilt", nontrivial(&v), format!("expect same {p} #hash-rebuilt"), || hash_rebuilt(&b, &v));
         // every component influences the hash: a position differing in exactly one component hashes differently
         out.case("hash-one-component", nontrivial(&v), format!("expect distinct {p} #hash-components"), || hash_components(&v, b.zobrist()));
+    }
+    // the successor written into a board that held something else (`move_into`, `move_unchecked_into`): same board, same hash
+    {
+        let pool: Vec<Board> = ps.iter().map(|t| t.board).collect();
+        let mut done = 0;
+        for t in ps.iter() {
+            if done >= (if thorough { 40_000 } else { 3_000 }) {
+                break;
+            }
+            let b = t.board;
+            let p = pos64(&view(&b));
+            let legal: Vec<ChessMove> = b.legals().collect();
+            if legal.is_empty() || !rng.chance(1, 3) {
+                continue;
+            }
+            let m = *rng.pick(&legal);
+            let dirty = *rng.pick(&pool);
+            done += 1;
+            out.case("move-into-a-used-board", true, format!("expect same {p} {} #move-into", mv_str(m)), || {
+                let Some(fresh) = b.move_new(m) else { return "differs:move_new-refused".into() };
+                let mut o1 = dirty;
+                if !b.move_into(m, &mut o1) {
+                    return "differs:move_into-refused".into();
+                }
+                let mut o2 = dirty;
+                unsafe { b.move_unchecked_into(m, &mut o2) };
+                let (vf, v1, v2) = (view(&fresh), view(&o1), view(&o2));
+                if v1 != vf {
+                    return format!("differs:move_into:{}:{}", pos64(&v1), derived(&v1));
+                }
+                if v2 != vf {
+                    return format!("differs:move_unchecked_into:{}:{}", pos64(&v2), derived(&v2));
+                }
+                if o1 != fresh || board_hash(&o1) != board_hash(&fresh) || o1.zobrist() != fresh.zobrist() {
+                    return "differs:eq-or-hash".into();
+                }
+                "same".into()
+            });
+        }
     }
     // the hash of a built board depends on the assembled position only: refused placements and removals leave no trace
     for t in ps.iter() {
